@@ -122,7 +122,16 @@ static bool run_case(const Case& cs) {
   std::vector<uint64_t> real;
   for (Section* s : code.sections()) real.push_back(s->real_size());
   uint64_t est0 = code.code_size();
-  if (code.flatten() != Error::kOk) FAIL("flatten", "flatten failed");
+  // reference layout in 128-bit arithmetic: a layout whose running offset does not fit 64 bits cannot be represented
+  bool ref_overflow = false;
+  { unsigned __int128 off = 0; for (Section* s : code.sections_by_order()) { uint64_t al = s->alignment() ? s->alignment() : 1; off = (off + al - 1) / al * al; off += real[s->section_id()]; if (off > (unsigned __int128)UINT64_MAX) ref_overflow = true; } }
+  Error fe = code.flatten();
+  if (ref_overflow) {
+    if (fe == Error::kOk) FAIL("flatten-overflow-accepted", "flatten() accepted a layout whose end does not fit 64 bits (code_size() before %llu, after %llu)", (unsigned long long)est0, (unsigned long long)code.code_size());
+    c.outcomes.insert("flatten-too-large");
+    return true;
+  }
+  if (fe != Error::kOk) FAIL("flatten", "flatten failed");
   if (!check_layout(code, real)) return false;
   if (code.code_size() != est0) FAIL("estimate", "code_size() before flatten %llu != after %llu", (unsigned long long)est0, (unsigned long long)code.code_size());
   std::vector<uint8_t> buf;
@@ -182,7 +191,8 @@ static Case draw(xplor::Chooser& ch, int n_extra, bool with_addrtab) {
 // sections whose virtual size pushes the running offset to and beyond 4 GiB, followed by an ordinary section
 static std::vector<Case> huge_family() {
   std::vector<Case> v;
-  const uint64_t kHuge[] = {(uint64_t(1) << 32) - 8, uint64_t(1) << 32, uint64_t(5) << 30};
+  // ... and layouts that end within an alignment step of 2^64 or beyond it (flatten must refuse exactly the unrepresentable ones)
+  const uint64_t kHuge[] = {(uint64_t(1) << 32) - 8, uint64_t(1) << 32, uint64_t(5) << 30, ~uint64_t(0) - 9, ~uint64_t(0) - 80, ~uint64_t(0) - 5000, uint64_t(1) << 63};
   const uint32_t kA1[] = {1, 16, 4096, 65536};
   for (size_t tb : {size_t(3), size_t(64)}) for (uint32_t a1 : kA1) for (int32_t o1 : {0, 1}) for (size_t b1 : {size_t(0), size_t(7)}) for (uint64_t vs : kHuge)
     for (uint32_t a2 : kAlign) for (int32_t o2 : {0, 1, 7}) for (size_t b2 : {size_t(7), size_t(64)}) for (int v2 = 0; v2 < 2; v2++) {
